@@ -1,4 +1,5 @@
 import TucanProofs.Lemmas.Totality
+import TucanProofs.Lemmas.RoundTripPipeline
 import TucanProofs.Examples
 /-!
 # C15 — the pipeline completes for every non-empty molecule regardless of size or shape  (PARTIAL)
@@ -19,6 +20,15 @@ theorem C15_pipeline_total (order : Graph → List Nat) (hperm : ∀ r : Graph, 
     (hattrs : ∀ a ∈ g.labels, ∃ x, g.attrs? a = some x ∧ x.z.isSome ∧ x.inv.isSome) :
     ∃ s, tucanOf order g = .ok s :=
   pipeline_total order hperm g hw hs hne hattrs
+
+/-- **… and parsing that string returns too**: the parser accepts the pipeline's output for every molecule
+in the domain the readers and the parser produce. -/
+theorem C15_parse_of_output_total (order : Graph → List Nat) (hperm : ∀ r : Graph, r.WF → (order r).Perm r.labels)
+    (g : Graph) (hw : g.WF) (hs : g.Simple) (hmol : g.MolAtoms)
+    (hsize : (natRepr (g.numberOfNodes + 1)).length ≤ intMaxStrDigits)
+    (s : Str) (h : tucanOf order g = .ok s) : ∃ H, graphFromTucan s = .ok H :=
+  let ⟨H, _, hp, _⟩ := pipeline_roundtrip order hperm g hw hs hmol hsize s h
+  ⟨H, hp⟩
 
 /-- canonicalization alone returns whatever the oracle answers -/
 theorem C15_canonicalize_total (order : Graph → List Nat) (g : Graph) (hw : g.WF) (hs : g.Simple)
